@@ -203,6 +203,17 @@ def discover_sites(ctx: Context, fi: FuncInfo) -> List[Site]:
                         if self_sel is not None:
                             si, stag = self_sel
                             add(si, Move(s, n, k.value if k.value in ALL_FIELDS else None, stag, None, si, norm_text(v), v))
+            elif isinstance(c, ast.Call) and not (isinstance(c.func, ast.Attribute) and c.func.attr in ("set_current", "update_current")) and len(c.args) + len(c.keywords) >= 2:
+                # a record rebuilt row-wise through a constructor / function call: R(u=S_u[I], x=S_x[I], ...)
+                sels = []
+                for (nm, v) in [(None, a) for a in c.args] + [(k.arg, k.value) for k in c.keywords]:
+                    vv = v.body if isinstance(v, ast.IfExp) else v
+                    sel = _selection(flow, tg, n, vv)
+                    if sel is not None and isinstance(vv, (ast.Subscript, ast.Call)):
+                        sels.append((nm, sel, vv))
+                if len(sels) >= 2 and len({sel[0] for (_, sel, _) in sels}) == 1:
+                    for (nm, (si, stag), vv) in sels:
+                        add(si, Move(s, n, (name_tag(nm) if nm else None) or stag, stag, None, si, norm_text(vv), vv))
             elif isinstance(c, ast.Call) and isinstance(c.func, ast.Attribute) and c.func.attr == "set_current":
                 k = call_arg(c, 0, "key")
                 v = call_arg(c, 1, "value")
